@@ -906,9 +906,13 @@ def check_C09(chk, tier, seed):
                 else:
                     # a writer that lets exactly q octets through, in whatever portions they are offered, then fails
                     wscript = [f"b:{q:x}", "x"]
-                for deliver in ("whole", "dribble"):
-                    chunks = [stream] if deliver == "whole" else [stream[i:i + 1] for i in range(len(stream))]
-                    cases.append(f"SV g {rs(chunks)} {ws(wscript)} {nreq} {ans_tok}")
+                for deliver in ("whole", "dribble", "whole-peer-stays"):
+                    if deliver == "whole-peer-stays" and (q >= len(alla) or q % 2):
+                        continue
+                    chunks = [stream] if deliver != "dribble" else [stream[i:i + 1] for i in range(len(stream))]
+                    # (whole-peer-stays: after the failed write the peer's sending direction stays open and silent - the connection has
+                    # ended with the failed write all the same, the task returns)
+                    cases.append(f"SV g {rs(chunks, 'n' if deliver == 'whole-peer-stays' else 'e')} {ws(wscript)} {nreq} {ans_tok}")
                     expect.append(f"SV {res} CALLS {ncalls}{calls} WRITTEN {xb(alla[:q])}")
                     kinds.append("write-fault")
     # every 41st case once more while 70 other connections of the process are stuck writing answers to peers that have stopped
